@@ -3,6 +3,11 @@
 // Each call runs in a forked child under ASan/UBSan with an alarm: a crash, sanitizer abort,
 // escaped exception or timeout is the observation `fault:<kind>`.
 // Ops:  c04 <entry> <class> <hint> <hexText> -> 1 | 0:<why>[+position-out-of-range] | fault:<kind>   (verdict, model `skip`)
+//       c04m parse <hint> <hexText>          -> <ok|fail> <errors>                      (compared with Model/EntryPoints.lean parseEntry)
+//       c04m audit <hint> <hexText>          -> t=<ok|fail> e=<errors> v=<ok|fail|-> ve=<errors|->   (checkEntry, context exported as `c03 ctx` lines)
+//       c04m eval <hint> <hexText>           -> <ok|fail> <errors>   (evalEntry; the model column is `skip` when the text passes the type check:
+//         the calculation itself needs the data context and is tied by C01/C02)
+//         errors = `-` or `eid@pos,...` (hex eid) in the order of logging: ErrorLogger::All() after Parse / CheckType / CheckValue
 //       c04 lexpos <syn> <hexText>           -> <ranges> err=<p|none> fails=<0|1> inrange=<0|1>
 //         ranges `lo:hi` of the real lexer's tokens up to and including the first INTERRUPT (`I`) / END (`E`),
 //         position of the first `unknownSymbol` error logged by Parse, verdict of Parse, and the harness' own
@@ -11,6 +16,7 @@
 #include "common.hpp"
 #include "frag.hpp"
 #include "verif_seed.hpp"
+#include "ast_wire.hpp"
 #include "ccl/semantic/RSModel.h"
 #include "ccl/rslang/Parser.h"
 #include "ccl/rslang/Auditor.h"
@@ -105,6 +111,33 @@ static std::string lexpos(const std::string& text, rslang::Syntax syn) {
     + " fails=" + (ok ? "0" : "1") + " inrange=" + (in ? "1" : "0");
 }
 
+// ---------------------------------------------------------------- model tie: the error log itself
+static std::string errList(const rslang::ErrorLogger& log) {
+  std::string out;
+  for (const auto& e : log.All()) {
+    if (!out.empty()) out += ',';
+    char buf[32]; std::snprintf(buf, sizeof buf, "%x@%d", static_cast<unsigned>(e.eid), static_cast<int>(e.position));
+    out += buf;
+  }
+  return out.empty() ? "-" : out;
+}
+static std::string tyWire(const rslang::Typification& t) {
+  if (t.IsElement()) return t.E().baseID;
+  if (t.IsCollection()) return "B[" + tyWire(t.B().Base()) + "]";
+  std::string out = "T[";
+  for (rslang::Index i = 1; i <= t.T().Arity(); ++i) { if (i > 1) out += ","; out += tyWire(t.T().Component(i)); }
+  return out + "]";
+}
+static std::string etWire(const rslang::ExpressionType& t) {
+  return std::holds_alternative<rslang::LogicT>(t) ? "LOGIC" : tyWire(std::get<rslang::Typification>(t));
+}
+// second field of a forked result ("verdict\x1f detail")
+static std::pair<std::string, std::string> splitDetail(const std::string& r) {
+  const auto cut = r.find('\x1f');
+  if (cut == std::string::npos) return { r, r };   // a fault is reported on both lines
+  return { r.substr(0, cut), r.substr(cut + 1) };
+}
+
 static void lexposOps(const std::string& text) {
   if (text.size() > 400) return;   // the deep-nesting class is for the implementation only
   // one child for both syntaxes (a fault is reported on both lines)
@@ -148,6 +181,34 @@ static void build(World& w) {
   RSForm f;
   for (const auto uid : m.List()) f.InsertCopy(uid, m.Core());
   w.schemaJson = api::RSFormJA::FromData(std::move(f)).ToJSON();
+}
+
+// the type / value-class / tree context of the schema, in the line protocol of the C03 driver (state `c03` of ccdriver)
+static void exportCtx(const World& w) {
+  const auto& schema = w.model.RSLang();
+  const auto vc = schema.VCContext();
+  const auto asts = schema.ASTContext();
+  emit("c03 reset", "ok");
+  for (const auto uid : w.model.List()) {
+    const std::string n = w.model.GetRS(uid).alias;
+    if (const auto tr = schema.TraitsFor(rslang::Typification(n)); tr.has_value()) {
+      std::string bits; bits += tr->isIterable ? '1' : '0'; bits += tr->isOrdered ? '1' : '0';
+      bits += tr->isOperable ? '1' : '0'; bits += tr->convertsFromInt ? '1' : '0';
+      emit("c03 traits " + n + " " + bits, "ok");
+    }
+    bool isFunc = false;
+    if (const auto* t = schema.TypeFor(n); t != nullptr) {
+      std::string line = "c03 ctx " + n + " " + etWire(*t);
+      if (const auto* a = schema.FunctionArgsFor(n); a != nullptr) {
+        isFunc = true;
+        for (const auto& arg : *a) line += " " + arg.name + ":" + tyWire(arg.type);
+      }
+      emit(line, "ok");
+    }
+    const auto c = vc(n);
+    if (c != rslang::ValueClass::invalid) emit("c03 vc " + n + (c == rslang::ValueClass::value ? " value" : " props"), "ok");
+    if (isFunc) if (const auto* tree = asts(n); tree != nullptr) emit("c03 ast " + n + " " + vh::astWire(tree->Root()), "ok");
+  }
 }
 
 // ---------------------------------------------------------------- inputs
@@ -217,27 +278,44 @@ static const rslang::Syntax kHints[] = { rslang::Syntax::UNDEF, rslang::Syntax::
 static void exprEntryPoints(World& w, const std::string& text, int hintIdx, const std::string& cls) {
   const auto hint = kHints[hintIdx];
   const std::string tag = cls + " " + std::to_string(hintIdx) + " " + hex(text.size() > 400 ? text.substr(0, 60) + "...len" + std::to_string(text.size()) : text);
-  emit("c04 parse " + tag, vh::forked([&] {
-    rslang::Parser p{}; const bool ok = p.Parse(text, hint);
-    return verdict(ok, p.Errors(), text, p.syntax == rslang::Syntax::ASCII); }, 20));
-  emit("c04 audit " + tag, vh::forked([&] {
-    const auto& schema = w.model.RSLang();
-    rslang::Auditor a{ schema, schema.VCContext(), schema.ASTContext() };
-    const bool ok = a.CheckType(text, hint);
-    auto r = verdict(ok, a.Errors(), text, a.parser.syntax == rslang::Syntax::ASCII);
-    if (ok) {
-      const bool vok = a.CheckValue();
-      const auto second = verdict(vok, a.Errors(), text, a.parser.syntax == rslang::Syntax::ASCII);
-      if (second != "1") r += "/value:" + second;
-    }
-    return r; }, 20));
-  emit("c04 eval " + tag, vh::forked([&] {
-    const auto& schema = w.model.RSLang();
-    rslang::Interpreter in{ schema, schema.ASTContext(), w.data() };
-    const auto v = in.Evaluate(text, hint);
-    // an empty expression is refused without an error by design (documented early return)
-    if (text.empty()) return std::string("1");
-    return verdict(v.has_value(), in.Errors(), text, in.parser.syntax == rslang::Syntax::ASCII); }, 30));
+  const bool tie = text.size() <= 400;   // the model column reproduces the log itself (the deep-nesting class is for the implementation only)
+  const std::string mtag = std::to_string(hintIdx) + " " + hex(text);
+  {
+    const auto r = splitDetail(vh::forked([&] {
+      rslang::Parser p{}; const bool ok = p.Parse(text, hint);
+      return verdict(ok, p.Errors(), text, p.syntax == rslang::Syntax::ASCII) + "\x1f" + (ok ? "ok " : "fail ") + errList(p.Errors()); }, 20));
+    emit("c04 parse " + tag, r.first);
+    if (tie) emit("c04m parse " + mtag, r.second);
+  }
+  {
+    const auto r = splitDetail(vh::forked([&] {
+      const auto& schema = w.model.RSLang();
+      rslang::Auditor a{ schema, schema.VCContext(), schema.ASTContext() };
+      const bool ok = a.CheckType(text, hint);
+      auto r = verdict(ok, a.Errors(), text, a.parser.syntax == rslang::Syntax::ASCII);
+      std::string detail = std::string("t=") + (ok ? "ok" : "fail") + " e=" + errList(a.Errors());
+      if (ok) {
+        const bool vok = a.CheckValue();
+        const auto second = verdict(vok, a.Errors(), text, a.parser.syntax == rslang::Syntax::ASCII);
+        if (second != "1") r += "/value:" + second;
+        detail += std::string(" v=") + (vok ? "ok" : "fail") + " ve=" + errList(a.Errors());
+      } else detail += " v=- ve=-";
+      return r + "\x1f" + detail; }, 20));
+    emit("c04 audit " + tag, r.first);
+    if (tie) emit("c04m audit " + mtag, r.second);
+  }
+  {
+    const auto r = splitDetail(vh::forked([&] {
+      const auto& schema = w.model.RSLang();
+      rslang::Interpreter in{ schema, schema.ASTContext(), w.data() };
+      const auto v = in.Evaluate(text, hint);
+      const std::string detail = std::string(v.has_value() ? "ok " : "fail ") + errList(in.Errors());
+      // an empty expression is refused without an error by design (documented early return)
+      if (text.empty()) return std::string("1") + "\x1f" + detail;
+      return verdict(v.has_value(), in.Errors(), text, in.parser.syntax == rslang::Syntax::ASCII) + "\x1f" + detail; }, 30));
+    emit("c04 eval " + tag, r.first);
+    if (tie) emit("c04m eval " + mtag, r.second);
+  }
   emit("c04 convert " + tag, vh::forked([&] {
     (void)rslang::ConvertTo(text, rslang::Syntax::ASCII); (void)rslang::ConvertTo(text, rslang::Syntax::MATH); return std::string("1"); }, 20));
   emit("c04 apiparse " + tag, vh::forked([&] { (void)api::ParseExpression(text, hint); return std::string("1"); }, 20));
@@ -291,9 +369,26 @@ int main() {
   const bool deep = vh::thorough();
   ccl::verif::Seed(5U);
   World w; build(w);
+  exportCtx(w);
   // corpus: inputs that crashed or failed silently before the fix: commits
   for (const auto& s : structured()) { for (int h = 0; h < 3; ++h) exprEntryPoints(w, s, h, "corpus"); lexposOps(s); }
   { int k = 0; for (const auto& s : slotCases()) { exprEntryPoints(w, s, deep ? (k % 3) : 1, "slot"); if (deep) { exprEntryPoints(w, s, (k + 1) % 3, "slot"); } ++k; } }
+  // parser-error corpus: every error production of RSParserImpl.y, TupleDeclaration, SemanticCheck, the ParseEID::syntax fallback,
+  // an unknown symbol before / after / instead of a syntax error (which tokens the parser pulls decides whether it is logged)
+  {
+    static const std::string IN = "\xE2\x88\x88", ALL = "\xE2\x88\x80", EX = "\xE2\x88\x83";
+    const std::vector<std::string> perr = {
+      "(X1", "(X1" + UNION + "X2", "(X1, X2", "{X1", "{X1, X2", "X1 )", "X1 }", ")", "", " ", "X1" + UNION, "card(X1", "Pr1(S1", BOOL + "(X1", "Fi1[X1](S1",
+      "D{a" + IN + "X1 | 1=1", "D{a" + IN + "X1 | 1=1)", "D{a" + IN + "X1 1=1}", "R{a:=X1 | a" + UNION + "a", "I{a | a:" + IN + "X1",
+      ALL + " X1", ALL, ALL + "a", ALL + "a" + IN, EX + "1" + IN + "X1 1=1", ALL + "a,1" + IN + "X1 1=1", ALL + "a," + IN + "X1 1=1", ALL + "a,,b" + IN + "X1 1=1",
+      ALL + "(a,1)" + IN + "X1 1=1", ALL + "(a,(b,X1" + UNION + "X1))" + IN + "X1 1=1", ALL + "(a,(b,c),1,2)" + IN + "X1 1=1", ALL + "((a,b),(X1,c))" + IN + "X1 1=1",
+      ALL + "(a,b)" + IN + "X1 1=1", "D{(a,1)" + IN + "X1 | 1=1}", "R{(a,1):=X1 | a}",
+      "[", "[a", "[a" + IN + "X1", "[a" + IN + "X1,", "[a" + IN + "X1, 1] a", "[a" + IN + "X1, b] a", "[a b] a", "[1] a", "[a" + IN + "X1] ", "[a" + IN + "X1]",
+      "a:=1", "a:" + IN + "X1", "(a:=1) & 1=1", "D{a" + IN + "X1 | a:=1}", "I{a | a:=1; b:=2}", "I{a | 1=1 & a:=1}", "a:=1 )", "R{a:=X1 | a:=a | a}",
+      "X1 @", "@", "(X1 @", "{X1 @", ALL + " @", ALL + "a @", "[ @", "[a, @", ") @", "X1 ) @", ALL + "(a,1)" + IN + "X1 @", "a:=1 @", "X1" + UNION + " @ X2", "D1:== @", "D1:==", "D1:== )", "F1:==[a" + IN + "X1] a", "D1::=X1",
+      "X1 \\union", "(X1 \\union X2", "\\A a \\in X1 a \\eq a", "\\A (a,1) \\in X1 1 \\eq 1", "a \\assign 1", "\\A $", "{X1 $" };
+    for (const auto& s : perr) { exprEntryPoints(w, s, 0, "perr"); lexposOps(s); }
+  }
   // fixed lexer position cases: blanks / tabs / newlines / CR before an unknown symbol, multi-byte symbols, empty text
   for (const std::string s : { "", " ", "a @b", "a\n\t @", "\r", "a\r\nb", "\xE2\x88\x80\xCE\xB1\xE2\x88\x88X1 \xCE\xB1=\xCE\xB1\n& a=#", "X1 \\union #", "\xFF", "\xCE", "12,3", "pr1,2,", "Fi1,2[a](b)$" })
     lexposOps(s);
